@@ -284,6 +284,18 @@ def translate_expression(expr, env: Env) -> TExp:  # noqa: C901
             elif isinstance(expr.op, ast.BitOr):
                 return bool, Or(tleft[1], tright[1])
 
+        # Qint and Qfixed have different bit layouts: the only operation between
+        # them is a Qfixed times an integer constant (in either order)
+        def _kind(t):
+            name = getattr(t, "__name__", "")
+            return "Qfixed" if name[:6] == "Qfixed" else name[:4]
+
+        if {_kind(tleft[0]), _kind(tright[0])} == {"Qint", "Qfixed"}:
+            if isinstance(expr.op, ast.Mult):
+                t_fixed = tleft[0] if _kind(tleft[0]) == "Qfixed" else tright[0]
+                return t_fixed.mul(tleft, tright)  # type: ignore
+            raise TypeErrorException(tright[0], tleft[0])
+
         if isinstance(expr.op, ast.Add) and hasattr(tleft[0], "add"):
             return tleft[0].add(tleft, tright)
         elif isinstance(expr.op, ast.Sub) and hasattr(tleft[0], "sub"):
